@@ -1052,10 +1052,13 @@ RV:
 		}
 	case reflect.Slice, reflect.Chan:
 		if rvIsNil(rv) {
-			if e.h.NilCollectionToZeroLength {
-				e.e.WriteArrayEmpty()
-			} else {
+			if !e.h.NilCollectionToZeroLength {
 				e.e.EncodeNil()
+			} else if uint8TypId == rt2id(rv.Type().Elem()) {
+
+				e.e.writeNilBytes()
+			} else {
+				e.e.WriteArrayEmpty()
 			}
 			goto END
 		}
@@ -5163,10 +5166,13 @@ RV:
 		}
 	case reflect.Slice, reflect.Chan:
 		if rvIsNil(rv) {
-			if e.h.NilCollectionToZeroLength {
-				e.e.WriteArrayEmpty()
-			} else {
+			if !e.h.NilCollectionToZeroLength {
 				e.e.EncodeNil()
+			} else if uint8TypId == rt2id(rv.Type().Elem()) {
+
+				e.e.writeNilBytes()
+			} else {
+				e.e.WriteArrayEmpty()
 			}
 			goto END
 		}
